@@ -54,6 +54,10 @@ func c1ClassifyRegion(src string) string {
 				}
 			}
 			c1DeferInLoop(x.Body, names, set)
+		case *ast.ReturnStmt:
+			if c1BuiltinResult(x) {
+				set("return-builtin")
+			}
 		case *ast.ParenExpr:
 			if _, ok := x.X.(*ast.BasicLit); ok {
 				set("paren-literal")
@@ -74,9 +78,21 @@ func c1ClassifyRegion(src string) string {
 			c1ClassifyReturns(x.Type, x.Body, set)
 		case *ast.FuncLit:
 			c1ClassifyReturns(x.Type, x.Body, set)
+			ast.Inspect(x.Body, func(m ast.Node) bool {
+				if as, ok := m.(*ast.AssignStmt); ok && as.Tok == token.ASSIGN && len(as.Lhs) == 1 && len(as.Rhs) == 1 {
+					if _, ok := as.Lhs[0].(*ast.Ident); ok {
+						if cl, ok := c1Unparen(as.Rhs[0]).(*ast.CompositeLit); ok {
+							if _, ok := cl.Type.(*ast.Ident); ok {
+								set("closure-struct-lit")
+							}
+						}
+					}
+				}
+				return true
+			})
 		case *ast.SwitchStmt:
 			if x.Init != nil && x.Tag != nil {
-				switch ast.Unparen(x.Tag).(type) {
+				switch c1Unparen(x.Tag).(type) {
 				case *ast.Ident, *ast.BasicLit:
 				default:
 					set("switch-init-tag")
@@ -97,7 +113,7 @@ func c1ClassifyRegion(src string) string {
 		case *ast.AssignStmt:
 			if x.Tok == token.ASSIGN && len(x.Lhs) > 1 && len(x.Rhs) > 1 {
 				for _, r := range x.Rhs {
-					switch ast.Unparen(r).(type) {
+					switch c1Unparen(r).(type) {
 					case *ast.CallExpr, *ast.CompositeLit:
 						set("multi-assign-call")
 					}
@@ -127,7 +143,7 @@ func c1EmptyBody(b *ast.BlockStmt) bool {
 }
 
 func c1VarLike(e ast.Expr) bool {
-	switch x := ast.Unparen(e).(type) {
+	switch x := c1Unparen(e).(type) {
 	case *ast.Ident:
 		return x.Name != "true" && x.Name != "false"
 	case *ast.SelectorExpr, *ast.IndexExpr, *ast.StarExpr:
@@ -161,10 +177,10 @@ func c1NestedConstOp(e ast.Expr, depth int) bool {
 		return c1NestedConstOp(x.X, depth)
 	case *ast.BinaryExpr:
 		if depth >= 1 {
-			if _, ok := ast.Unparen(x.X).(*ast.BasicLit); ok {
+			if _, ok := c1Unparen(x.X).(*ast.BasicLit); ok {
 				return true
 			}
-			if _, ok := ast.Unparen(x.Y).(*ast.BasicLit); ok {
+			if _, ok := c1Unparen(x.Y).(*ast.BasicLit); ok {
 				return true
 			}
 		}
@@ -200,7 +216,7 @@ func c1Mentions(n ast.Node, names []string) bool {
 func c1Writes(n ast.Node, name string) bool {
 	found := false
 	isName := func(e ast.Expr) bool {
-		id, ok := ast.Unparen(e).(*ast.Ident)
+		id, ok := c1Unparen(e).(*ast.Ident)
 		return ok && id.Name == name
 	}
 	ast.Inspect(n, func(m ast.Node) bool {
@@ -330,4 +346,32 @@ func c1ClassifyReturns(ft *ast.FuncType, body *ast.BlockStmt, set func(string)) 
 		}
 		return true
 	})
+}
+
+var c1Builtins = map[string]bool{"len": true, "cap": true, "append": true, "copy": true, "make": true, "new": true,
+	"complex": true, "real": true, "imag": true, "min": true, "max": true}
+
+// c1BuiltinResult: a return with several results one of which, not the first, is a direct builtin call.
+func c1BuiltinResult(r *ast.ReturnStmt) bool {
+	if len(r.Results) < 2 {
+		return false
+	}
+	for _, e := range r.Results[1:] {
+		if c, ok := c1Unparen(e).(*ast.CallExpr); ok {
+			if id, ok := c.Fun.(*ast.Ident); ok && c1Builtins[id.Name] {
+				return true
+			}
+		}
+	}
+	return false
+}
+
+func c1Unparen(e ast.Expr) ast.Expr {
+	for {
+		p, ok := e.(*ast.ParenExpr)
+		if !ok {
+			return e
+		}
+		e = p.X
+	}
 }
